@@ -42,11 +42,13 @@ PROPS = {
   'assumptions': ['width, height in [1, 2^32-1]', 'bits per pixel in {1,2,4,8,16,24,32,48,64}', 'stride*8 >= width*bits for the whole-image theorem'],
  },
  'C07': {
-  'level_text': 'Coq theorem (closed under the global context, for EVERY inflater behaviour, every well-formed decoder state and every byte buffer): one '
+  'level_text': 'Coq theorems (closed under the global context, for EVERY inflater behaviour, every well-formed decoder state and every byte buffer): one '
                 'StreamingDecoder::update call of the L0 model never exhausts its 2*len+8 transition budget (the measure 2*bytes_left + rank(state) strictly '
                 'decreases on every silent transition), consumes at most the buffer, returns the silent event only after consuming the whole non-empty buffer '
                 '(so each call consumes a byte, returns an event or returns an error), poisons the decoder on every error, and preserves well-formedness; the '
-                'poisoned state answers at once. The L0 model is tied to stream.rs by differential execution of traces on every run; the Reader-level loops are '
+                'poisoned state answers at once. LINEAR BOUND: every transition (events included) consumes a byte or lowers the rank of the control state, so it lowers 5*bytes_left + rank (rank <= 4): a buffer of L bytes is '
+                'used up, or an error / the end of the image reached, within 5*L+4 transitions; the caller loop feed (offer the rest again after every event) never exceeds its budget of 5*L+8 update calls per buffer, for every '
+                'input and every way of cutting it. The L0 model is tied to stream.rs by differential execution of traces on every run; the Reader-level loops are '
                 'checked by step counters (fill_buf calls <= 8*|input| + 2*|output| + 64, no run of zero-byte consumes) and a watchdog.',
   'level_note': 'Trusted: Coq kernel; hand model of stream.rs (update/next_state/parse_u32/parse_chunk and all chunk parsers) in coq/Model/Stream.v tied by correspondence; '
                 'the Reader/ReadDecoder loops and zlib.rs are NOT covered by the theorem (measured by counters + watchdog only); extraction + OCaml driver; harness.',
@@ -132,12 +134,15 @@ PROPS = {
   'assumptions': ['default (identity) transformation', 'fdeflate decodes every RFC 1951 stream as the reference does (tested on every generated stream)'],
  },
  'C04': {
-  'level_text': 'Coq theorems (closed under the global context; PARTIAL with respect to the full statement, which is kept visible in Props/C04.v): in every state of the stream-machine model and for every '
-                'inflater, a 4-byte field cut after 1-3 bytes is accumulated silently and parsed by the same parse_u32 call as when it arrives whole; a chunk body delivered as p then q leaves exactly the '
-                'state p++q leaves; compressed image data delivered as p then q leaves the state and the appended image bytes of p++q (premise: the external inflater never retracts output); zero-byte transitions ignore the buffer. The composition over whole streams (and the image-data state, which needs the inflater\'s prefix-monotonicity) is decided on '
-                'every run by the metamorphic check on the implementation (whole vs byte-by-byte vs every single cut point vs random schedules, at StreamingDecoder and Reader level) and model traces.',
-  'level_note': 'Trusted: Coq kernel; hand model of stream.rs tied by differential execution. The trace-level theorem feed(p1) = feed(p2) is NOT proved (stated in Props/C04.v); its composition step is measured, '
-                'not proved. fdeflate streaming behaviour by contract.',
+  'level_text': 'Coq theorems (closed under the global context). The property is PROVED for the streaming decoder (C04_decoding_is_delivery_independent): for every byte string, every option set and limit and ANY two ways of '
+                'cutting the bytes into successive buffers, the driver feed of the L0 model (the loop the correspondence check runs against StreamingDecoder::update) yields the same observation - the same events other than '
+                'Nothing/ImageData, the same image bytes with every ImageDataFlushed, the same end (complete decoder state incl. metadata at IEND / end of input; the same error and metadata on failure). Only premise: the '
+                'prefix-determinacy contract of the external inflater (output / error / end of stream determined by a prefix stay determined; shown satisfiable). Proof: inflater wrapper cut-invariant in every state -> one transition on '
+                'p++q = transition on p, or transitions on p and q merged (field, body or image data straddling the cut) -> runs of transitions -> lists of pieces -> the fuelled loops of update/feed, which never run dry '
+                '(5*|buffer|+rank decreases with every transition). PARTIAL with respect to the other half of the property: the Reader over a BufRead (rows, frames, error order) is not in the theorem; it is decided on every run by the '
+                'metamorphic check on the implementation (whole vs byte-by-byte vs every single cut point vs random schedules, at StreamingDecoder and Reader level) and has one known finding.',
+  'level_note': 'Trusted: Coq kernel; hand model of stream.rs tied by differential execution of event traces (l0 cases); fdeflate streaming behaviour by the stated contract (zinf_contract), which is a hypothesis of the theorem, not an axiom; '
+                'the Reader level is measured, not proved.',
   'gen_items': ['CHUNK_BUFFER_SIZE', 'signature', 'chunk.consts'],
   'model_name': 'Model/Stream.v next_state (field accumulation, body buffering) / StreamRun.v feed',
   'rule': 'cases = generated valid files with ancillary chunks, structural and byte mutations, corpus files; each under whole / 1..13-byte pieces / every single cut point (files <= 700 B; 4096 B thorough) / '
